@@ -100,8 +100,8 @@ func (a *Analysis) ruleW() {
 		}
 		for f := range a.reachableFrom(callee) {
 			for _, cc := range callsIn(f) {
-				if n := calleeName(cc); n == "(*html/template.Template).Execute" || n == "(*text/template.Template).Execute" {
-					return true
+				if n := calleeName(cc); n == "(*html/template.Template).Execute" || n == "(*text/template.Template).Execute" || n == "strconv.Quote" {
+					return true // renders through a template, or by hand with strconv.Quote
 				}
 			}
 		}
@@ -1028,6 +1028,14 @@ func (a *Analysis) ruleW2(upd *ssa.Function) {
 			nExec++
 		}
 	}
+	// rendered by hand (constant text, the variable name, strconv.Quote of every word) instead
+	// of through a template: the buffer stands in for the Execute call
+	var quote *QuoteRec
+	if nExec == 0 && len(e.QuoteRenders) == 1 {
+		quote = &e.QuoteRenders[0]
+		execRec = &CallRec{Callee: "quote-render", Instr: quote.Render.Site, Args: []AV{nil, quote.Buf, nil}, State: quote.State}
+		nExec = 1
+	}
 	if execRec == nil || nExec != 1 {
 		r.Unk("W2", fk+"/execute", pos, "", "expected exactly one template Execute call reachable from %s, found %d", fk, nExec)
 		return
@@ -1040,19 +1048,30 @@ func (a *Analysis) ruleW2(upd *ssa.Function) {
 	}
 	// ---- the data: a struct with the word slice and the variable name
 	var stt *types.Struct
-	dv := through(exec.Call.Args[2])
-	dt := dv.Type()
-	if pt, ok := dt.Underlying().(*types.Pointer); ok {
-		dt = pt.Elem()
-	}
-	stt, _ = dt.Underlying().(*types.Struct)
-	data, isVec := execRec.Args[2].(VecV)
-	if stt == nil || !isVec || len(data.Elems) != stt.NumFields() {
-		r.Unk("W2", fk+"/data", ep, "", "the value given to Execute (%v) is not a struct of the generator whose fields are known", execRec.Args[2])
-		return
-	}
+	var data VecV
 	var words *TokensV
 	wordsField, varField := "", ""
+	if quote != nil {
+		words, wordsField = quote.Render.Words, "WordList"
+		if sv, ok := quote.Render.Var.(StrV); ok && sv.Kind == skRaw && sv.S == varP.Name() {
+			varField = "Variable"
+		}
+		a.genSynthText = quote.Render.Text
+		r.OK("W2", fk+"/render", ep, "", "the file is rendered by hand: constant text, the variable name, strconv.Quote of every element of the word slice followed by a comma (judged as the equivalent template)")
+	} else {
+		dv := through(exec.Call.Args[2])
+		dt := dv.Type()
+		if pt, ok := dt.Underlying().(*types.Pointer); ok {
+			dt = pt.Elem()
+		}
+		stt, _ = dt.Underlying().(*types.Struct)
+		var isVec bool
+		data, isVec = execRec.Args[2].(VecV)
+		if stt == nil || !isVec || len(data.Elems) != stt.NumFields() {
+			r.Unk("W2", fk+"/data", ep, "", "the value given to Execute (%v) is not a struct of the generator whose fields are known", execRec.Args[2])
+			return
+		}
+	}
 	for i, v := range data.Elems {
 		name := stt.Field(i).Name()
 		switch x := v.(type) {
@@ -1340,7 +1359,7 @@ func (a *Analysis) ruleW2(upd *ssa.Function) {
 				break
 			}
 		}
-		rendered := false
+		rendered := quote != nil // rendering by hand into memory has no failing step of its own; the write below has
 		written := writeFileSite == nil
 		renamed := renameSite == nil
 		scanned := scanErrSite == nil
@@ -1561,6 +1580,10 @@ func (a *Analysis) ruleW3(exec *ssa.Call) {
 	r := a.R
 	ep := a.P.InstrPos(exec)
 	text, pkg, ok := a.templateText(exec)
+	if a.genSynthText != "" {
+		// rendered by hand with strconv.Quote (W2 render): the equivalent template
+		text, pkg, ok = a.genSynthText, "text/template", true
+	}
 	if !ok {
 		r.Unk("W3", "template/text", ep, "", "the template is not parsed from a constant text in its declaration")
 		return
